@@ -46,7 +46,12 @@ def run(tier, seed, replay):
     cases, derive_of, enum_of = [], {}, {}
     for k in range(ncase):
         tr = rng.choice(F.DISPLAY_TRAITS + ["Display", "Display", "Debug", "Debug"])
-        if rng.random() < 0.7:
+        if rng.random() < 0.05:
+            # `.*` placeholders over fields of type parameters, followed by further implicit placeholders
+            c = R.gen_star_struct_case(rng, k)
+            tr = "Display"
+            enum_of[k] = False
+        elif rng.random() < 0.7:
             c = R.gen_struct_case(rng, k, tr)
             enum_of[k] = False
         else:
